@@ -92,5 +92,5 @@ META = {
     "note": "The theorem is about the scheduling logic of EngineImpl::run/run_all_actors under the property's hypothesis (actor-local user code). "
             "Context-switch assembly, Boost.Context, futexes and thread creation are not modelled: they are covered only by the differential runs.",
     "technique": "Coq proof (commutation of steps on disjoint components, induction on sub-rounds) + 27-configuration differential runs of a generic S4U interpreter",
-    "claimed": False,
+    "claimed": True,
 }
